@@ -39,30 +39,32 @@ def gen_lits(rng, names, n):
 
 
 def gen_ineq(rng, names):
-    n = rng.choice([0, 1, 2, 2, 3, 3, 4, 4, 5, 6, 7, 8])
+    n = rng.choice([0, 1, 2, 3, 3, 4, 4, 5, 5, 6, 7, 8])
     pool = names if rng.random() < 0.7 else names[:max(2, len(names) // 2)]
-    coefs = list(range(-9, 10)) if rng.random() < 0.6 else [-2, -1, 0, 1, 1, 1, 2, 3]
+    coefs = list(range(-9, 10)) if rng.random() < 0.5 else [-2, -1, 0, 1, 1, 1, 2, 2, 3]
     lt = [[rng.choice(pool), rng.random() < 0.65, rng.choice(coefs)] for _ in range(n)]
     rt = [[rng.choice(pool), rng.random() < 0.65, rng.choice(coefs)] for _ in range(rng.choice([0, 0, 0, 1, 2]))]
     tot = sum(abs(t[2]) for t in lt + rt)
     lo = -sum(-t[2] for t in lt if t[2] < 0) - sum(t[2] for t in rt if t[2] > 0)
     hi = sum(t[2] for t in lt if t[2] > 0) + sum(-t[2] for t in rt if t[2] < 0)
     mode = rng.random()
-    if mode < 0.75:
+    if mode < 0.55 and hi - lo >= 2:
+        b = rng.randint(lo + 1, hi - 1)         # neither trivially true nor trivially false
+    elif mode < 0.75:
         b = rng.randint(lo - 1, hi + 1)
     elif mode < 0.9:
         b = rng.choice([lo, lo + 1, hi, hi - 1, 0, 1])
     else:
         b = rng.randint(-tot - 3, tot + 3)
-    op = rng.choice(["GE", "GE", "GE", "LE", "LE", "GT", "LT", "EQ", "EQ2"])
+    op = rng.choice(["GE", "GE", "GE", "GE", "LE", "LE", "LE", "GE", "LE", "GT", "LT", "GT", "LT", "EQ", "EQ2"])
     return {"k": "ineq", "lt": lt, "rt": rt, "b": b, "op": op, "decomp": rng.random() < 0.4,
             "via": rng.choice(["ctor", "operator"]) if op != "EQ2" else "ctor"}
 
 
 def gen_post(rng, names):
-    kind = rng.choice(["clause", "imply", "amoq", "amoh", "amoh", "ineq", "ineq", "ineq", "ineq"])
+    kind = rng.choice(["clause", "imply", "amoq", "amoh", "amoh"] + ["ineq"] * 7)
     if kind == "clause":
-        return {"k": "clause", "lits": gen_lits(rng, names, rng.choice([0, 1, 1, 2, 2, 3, 4]))}
+        return {"k": "clause", "lits": gen_lits(rng, names, rng.choice([0, 1, 2, 2, 2, 3, 3, 4, 4]))}
     if kind == "imply":
         return {"k": "imply", "lits": gen_lits(rng, names, rng.choice([0, 1, 2, 3])), "x": gen_lits(rng, names, 1)[0]}
     if kind == "amoq":
@@ -76,7 +78,7 @@ def gen_post(rng, names):
 def gen_case(rng):
     nv = rng.choice([2, 3, 3, 4, 4, 5, 5, 6, 6, 7, 8, 10])
     names = NAMES[:nv]
-    posts = [gen_post(rng, names) for _ in range(rng.choice([1, 1, 2, 2, 3, 4, 5, 6]))]
+    posts = [gen_post(rng, names) for _ in range(rng.choice([1, 1, 1, 2, 2, 2, 3, 3, 4, 5, 6]))]
     hist = []
     for _ in range(rng.choice([0, 1, 2, 3, 4, 6])):
         if posts and rng.random() < 0.35:
@@ -176,7 +178,7 @@ def mgr_state(sm):
     from tools.rect import pseudobool as pb
     return {"clauses": [[[l.v, bool(l.s)] for l in c] for c in sm.clauses], "aux": sm.auxcount,
             "codified": [int(k) for k in sm.codified], "vtable": list(sm.vtable[1:]),
-            "ttable": dict(sm.ttable), "memlen": len(pb.memory)}
+            "ttable": dict(sm.ttable), "memlen": len(pb.memory), "nclauses": len(sm.clauses)}
 
 
 def mem_nodes(lst):
@@ -207,17 +209,19 @@ def run_impl(case):
     mem0 = mem_nodes(pb.memory[2:])
     mmap_ok = all(pb.mmap.get(tuple(n)) == i + 2 for i, n in enumerate(pb.memory[2:])) and len(pb.mmap) == len(mem0)
     sm = SATManager()
-    status, norms, unchanged = [], [], []
+    status, norms, unchanged, last = [], [], [], []
     for p in case["posts"]:
         before = mgr_state(sm)
         st, extra = do_post(sm, p)
         status.append(st)
         norms.append(extra)
+        last.append([l.v for l in sm.clauses[-1]] if len(sm.clauses) > before["nclauses"] else None)
         if st == "R":
             unchanged.append(mgr_state(sm) == before)
     obs = {"mem0": mem0, "mmap_ok": mmap_ok, "newmem": mem_nodes(pb.memory[2 + len(mem0):]), "status": status,
            "norms": norms, "refused_unchanged": unchanged}
-    obs.update({k: v for k, v in mgr_state(sm).items() if k not in ("ttable", "memlen")})
+    obs.update({k: v for k, v in mgr_state(sm).items() if k not in ("ttable", "memlen", "nclauses")})
+    obs["clauses_after"] = last
     obs["history_codified"] = len(hm.codified)
     # ---- solve / value / evalexpr, and extendability of every user assignment ----
     users = sorted({p["v"] for p in case["posts"] if p["k"] == "newvar"})
@@ -464,7 +468,7 @@ def dist_key(case):
 
 
 def run(ctx, out, replay=None):
-    n = 1500 if ctx.quick() else 30000
+    n = 3000 if ctx.quick() else 40000
     out.rule = ("random posting sequences (1-6 posts: clauses, implications, at-most-one groups of 0..12 literals "
                 "pairwise and chained with k 3..6 (and refused k), inequalities with up to 8+2 literals, coefficients "
                 "-9..9 incl. 0, repeated variables, both polarities, six operator spellings, both constructions) over "
@@ -477,8 +481,26 @@ def run(ctx, out, replay=None):
     cases += fr.load_corpus("C07")
     while len(cases) < n:
         cases.append(gen_case(ctx.rng))
-    fr.run_cases(ctx, out, cases, run_impl, to_coq, oracle, failure_key, HEADER,
+    stats = {"refused_posts": 0, "cases_building_nodes": 0, "cases_reusing_earlier_nodes": 0, "unsat_instances": 0,
+             "max_initial_memory": 0, "max_new_nodes": 0, "nodes_codified": 0,
+             "ineq_via_diagram": 0, "ineq_as_clause_or_tautology": 0}
+
+    def run_counted(case):
+        obs = run_impl(case)
+        stats["refused_posts"] += obs["status"].count("R")
+        stats["cases_building_nodes"] += 1 if obs["newmem"] else 0
+        stats["cases_reusing_earlier_nodes"] += 1 if any(2 <= i < 2 + len(obs["mem0"]) for i in obs["codified"]) else 0
+        stats["unsat_instances"] += 0 if obs["solve"] else 1
+        stats["max_initial_memory"] = max(stats["max_initial_memory"], len(obs["mem0"]))
+        stats["max_new_nodes"] = max(stats["max_new_nodes"], len(obs["newmem"]))
+        stats["nodes_codified"] += len(obs["codified"])
+        for p, st, c in zip(case["posts"], obs["status"], obs["clauses_after"]):
+            if p["k"] == "ineq" and st == "A":
+                stats["ineq_via_diagram" if c and len(c) == 1 and c[0].startswith("robdd_") else "ineq_as_clause_or_tautology"] += 1
+        return obs
+    fr.run_cases(ctx, out, cases, run_counted, to_coq, oracle, failure_key, HEADER,
                  dist_key=None, nontrivial=nontrivial, shard=125, shrink=shrink)
+    out.extra["c07_stats"] = stats
     kinds = {}
     for c in cases:
         for p in c["posts"]:
